@@ -7,7 +7,7 @@ use crate::term::*;
 pub const LIMIT: i64 = 12;
 pub const PRELUDE: &str = "proc pa2 {a b} {return $a$b}; set nonint abc; set arr(1) 1";
 
-pub const FAULTS: [&str; 22] = [
+pub const FAULTS: [&str; 24] = [
     "set q \"unterminated",
     "rec [unclosed",
     "rec $arr(",
@@ -30,6 +30,8 @@ pub const FAULTS: [&str; 22] = [
     "return r",
     "throw MYCODE msg",
     "rec fine",
+    "proc rw {} {rw}; rw",
+    "proc pb {a a(1)} {return $a}; pb 1 2",
 ];
 
 pub fn wrap(rng: &mut Rng, body: &str, k: &mut usize) -> String {
@@ -99,7 +101,7 @@ pub fn gen(tier: &str, seed: u64) -> Gen {
         let refs: Vec<&str> = scripts.iter().map(|s| s.as_str()).collect();
         cases.push(case(LIMIT, &refs, &["g8"]));
     }
-    (cases, vec![("1-4 failing evaluations (22 fault kinds under 0-3 nested contexts of 9 kinds; one history in five with errorInfo/errorCode turned into arrays meanwhile) followed by 4 probes".to_string(), n, false)])
+    (cases, vec![("1-4 failing evaluations (24 fault kinds under 0-3 nested contexts of 9 kinds; one history in five with errorInfo/errorCode turned into arrays meanwhile) followed by 4 probes".to_string(), n, false)])
 }
 
 pub fn run(case: &Term) -> Term {
